@@ -82,6 +82,9 @@ inline void note_entry_pointer(const RegisterEntry *e) {
 template <int ID> bool vp_validator(const RegisterEntry *e, RegisterValue v) { note_entry_pointer(e); return rm::cb_pred(ID, (int)e->type, from_value(v)); }
 inline validatorFunction validator(int id) { return id == 0 ? (validatorFunction)vp_validator<0> : id == 1 ? (validatorFunction)vp_validator<1> : (validatorFunction)vp_validator<2>; }
 
+inline unsigned long &mem_hook_calls() { static unsigned long n = 0; return n; }
+extern "C" inline RegisterAccess vp_mem_write_hook(RegisterArea *a, const RegisterAtom *src, RegisterOffset off, RegisterOffset n) { mem_hook_calls()++; return reg_mem_write(a, src, off, n); }
+inline bool write_hooked(const AreaD &a) { return a.membacked && a.has_write && (a.base + a.size) % 3 == 0; }
 // A live table: area and entry arrays (with END sentinels) and all storage in exact-size heap blocks.
 struct Live {
     const TableD *d;
@@ -102,7 +105,9 @@ struct Live {
             RegisterArea &ra = areas[i];
             ra.flags = (uint16_t)((a.readable ? REG_AF_READABLE : 0) | (a.writeable ? REG_AF_WRITEABLE : 0) | (a.skip_defaults ? REG_AF_SKIP_DEFAULTS : 0));
             ra.base = a.base; ra.size = a.size;
-            if (a.membacked) { ra.read = a.has_read ? reg_mem_read : nullptr; ra.write = a.has_write ? reg_mem_write : nullptr; ra.mem = mem; }
+            // a third kind of area: the library's reg_mem_read over a RAM mirror, but the application's own write accessor in front of it
+            // (write-through / notify hook that stores with reg_mem_write): every store into such an area goes through that accessor
+            if (a.membacked) { ra.read = a.has_read ? reg_mem_read : nullptr; ra.write = a.has_write ? (write_hooked(a) ? vp_mem_write_hook : reg_mem_write) : nullptr; ra.mem = mem; }
             else {
                 ra.read = a.has_read ? vp_cb_read : nullptr; ra.write = a.has_write ? vp_cb_write : nullptr; ra.mem = nullptr; cbstores().push_back({&ra, mem, a.size});
                 // every other callback-backed area also carries a `mem` pointer of its own (a shadow copy the application keeps, holding other
